@@ -270,6 +270,10 @@ def _compare(interp, sym, a, b):
     if sym == '==':
         if isinstance(a, K) and isinstance(b, K):
             return K(a.v == b.v)
+        if isinstance(a, Method) or isinstance(b, Method):
+            # a bound method never equals a constant
+            if isinstance(a, K) or isinstance(b, K):
+                return K(False)
         r = _identity(a, b)
         if r is True:
             return K(True)
@@ -791,7 +795,9 @@ def call_method(interp, base, name, args, kwargs):
                 except Exception as e:
                     raise py_exc(interp, e)
         if name == 'format':
-            return T('fmt', base, *[interp.termify(a) for a in args])
+            t = T('format', base, *[interp.termify(a) for a in args])
+            interp.types[t] = 'str'
+            return t
         return method_term(interp, base, name, args, kwargs)
     if isinstance(base, ListV):
         return list_method(interp, base, name, args, kwargs)
@@ -1264,6 +1270,17 @@ def b_re_compile(interp, args, kwargs):
     return NotImplemented
 
 
+def b_format(interp, args, kwargs):
+    if _all_k(args):
+        try:
+            return K(format(*[a.v for a in args]))
+        except Exception as e:
+            raise py_exc(interp, e)
+    t = T('call', 'format', *[interp.termify(a) for a in args])
+    interp.types[t] = 'str'
+    return t
+
+
 def b_pure(name):
     def f(interp, args, kwargs):
         if _all_k(args, kwargs):
@@ -1361,7 +1378,8 @@ BUILTINS = {
     'chr': b_pure('chr'), 'abs': b_pure('abs'), 'repr': b_pure('repr'),
     'math.ceil': b_math_ceil, 'pow': b_pow, 'map': b_map,
     'functools.reduce': b_reduce, 'divmod': b_divmod,
-    'sys.exc_info': b_exc_info,
+    'sys.exc_info': b_exc_info, 'format': b_format,
+    'round': b_pure('round'),
     'operator.lt': b_operator('lt'), 'operator.le': b_operator('le'),
     'operator.eq': b_operator('eq'), 'operator.ne': b_operator('ne'),
     'operator.gt': b_operator('gt'), 'operator.ge': b_operator('ge'),
